@@ -1,221 +1,38 @@
 """C08 - Activation methods trigger exactly the rules their definition selects.
 
-Every `activate` touches the activation degree only through comparisons, so one loop iteration is
-interpreted abstractly under every weak order of the specification's quantities and the set of
-statements executed (activate_with, trigger, counter increment, heap push, ...) is compared with
-the predicate of DESIGN.md Appendix A.2. Order rules are path rules on the CFG.
+Every `activate` consults the activation degrees only through comparisons (and, for Proportional, their sum), so each method is
+interpreted (sa/absexec.py, sa/rules/activation_sem.py) on model rule blocks of 2-4 rules under every weak order of the degrees, zero
+and the threshold, with loaded / unloaded / disabled rules, and the log of what was done to the rules is compared with the definition.
+The comparator table, the size guard of assert_is_not_vector and Rule.trigger are decided on their own code.
 """
 
 from __future__ import annotations
 
 import ast
-import re
 from typing import Any
 
-from ..cfg import Node
 from ..guards import RoleEval, simulate, weak_orders
 from ..pm import AnalysisError, unparse
 from ..report import Check
-from ..sym import Resolver, Term, path_of, show, walk
-from .common import (body_entry, cmp_normal, const_value, early_exits, is_path, iter_base, iter_precedes, loc, loops_over,
-                     method_calls_on, strip)
+from ..sym import Resolver, Term, path_of, show
+from .common import cmp_normal, const_value, loc
 
 EXPLANATION = (
-    "static analysis of the 7 Activation.activate methods, Activation.assert_is_not_vector, "
-    "Threshold.Comparator and Rule.trigger: one loop iteration is interpreted abstractly under every weak order "
-    "of (count, n, degree, 0, threshold) x loaded/unloaded and the executed statements are compared with the "
-    "trigger predicate of the specification (exhaustive over orderings); CFG must-precede rules for "
-    "deactivate/activate_with/assert/trigger order; origin rules for operator arguments, iteration direction, "
-    "heap key, divisor; comparator table; who-may-call: a consequent is modified only through Rule.trigger (or under the rule's enabled flag)"
+    "static analysis of the 7 Activation.activate methods, Activation.assert_is_not_vector, Threshold.Comparator and Rule.trigger: each activate "
+    "method is interpreted abstractly on model rule blocks (3 rules, 2 for Threshold; 4 / 3 in the thorough tier) for every weak order of (degrees, 0, "
+    "threshold) realised by two embeddings into dyadic numbers x {loaded+enabled, unloaded, disabled} per rule x the rules parameter x the six "
+    "comparators; the log of deactivate / is_loaded / activate_with / assert_is_not_vector / trigger calls and of every consultation of a degree is "
+    "compared with the definition: deactivation first (O-dea), each loaded rule's degree computed once (A-sem degrees) with the block's operators (P2), "
+    "exactly the selected rules triggered once with the degree the definition gives them (A-sem selection), the degree seen by assert_is_not_vector "
+    "before anything treats it as a single number (O-vec); comparator table; size guard; who-may-call: a consequent is modified only through "
+    "Rule.trigger (or under the rule's enabled flag)"
 )
 ASSUMPTIONS = [
     "scalar activation degrees (batches are rejected by the O-vec rule for every method but General)",
     "heapq is a min-heap over tuples compared lexicographically; operator.lt/le/eq/ne/ge/gt have their Python meaning",
 ]
-FLOORS = {"O-all": 7, "O-dea": 7, "O-seq": 7, "P2": 14, "O-vec": 6, "G": 9, "K1": 2, "T3": 6, "U1": 2, "DIR": 7}
+FLOORS = {"A-sem": 21, "O-dea": 7, "P2": 21, "O-vec": 7, "T3": 6, "U1": 2}
 
-VECTOR_INCAPABLE = ["First", "Last", "Highest", "Lowest", "Proportional", "Threshold"]
-
-
-def is_counter(t: Term) -> bool:
-    """phi{0, <carried> + 1}: a variable initialised to zero and incremented by one around a loop."""
-    if t[0] != "phi":
-        return False
-    has_zero = has_inc = False
-    for a in t[1]:
-        if a[0] == "const" and a[1] == 0:
-            has_zero = True
-        elif a[0] == "binop" and a[1] == "+" and a[3] == ("const", 1):
-            has_inc = True
-        else:
-            return False
-    return has_zero and has_inc
-
-
-class Activate:
-    """Facts about one `activate(self, rule_block)` implementation."""
-
-    def __init__(self, check: Check, cls: str):
-        p = check.program
-        self.check = check
-        self.cls = cls
-        self.fn = p.cls(cls).methods.get("activate")
-        if self.fn is None:
-            raise AnalysisError(f"anchor vanished: {cls}.activate")
-        check.analysed(self.fn)
-        self.r = Resolver(p, self.fn)
-        self.cfg = self.r.cfg
-        params = [x.name for x in self.fn.params]
-        if len(params) < 2:
-            raise AnalysisError(f"{cls}.activate has no rule block parameter")
-        self.rb = params[1]
-        self.rules_path = f"{self.rb}.rules"
-        self.loops = loops_over(self.r, lambda b: is_path(self.unfiltered(b), self.rules_path))
-        if not self.loops:
-            raise AnalysisError(f"{cls}.activate: no loop over {self.rules_path} recognised")
-        # the main loop is the one that computes the activation degrees (a preceding loop may only deactivate)
-        main = [lp for lp in self.loops if method_calls_on(self.r, self.is_rule, "activate_with", self.cfg.loop_body(lp[0]))]
-        self.main_head, base, self.direction = (main or self.loops)[0]
-        self.body = self.cfg.loop_body(self.main_head)
-        self.filter = base[2] if base[0] == "filtered" else None  # text of the selection the main loop ranges over
-        self.filtered_loaded = bool(self.filter) and re.fullmatch(r"\w+\.is_loaded\(\)", self.filter) is not None
-
-    @staticmethod
-    def unfiltered(b: Term) -> Term:
-        while b[0] == "filtered":
-            b = iter_base(b[1])[0]
-        return b
-
-    def first_effect(self, head: Node) -> Node:
-        """The first statement of an iteration that does something other than binding a local name to a call-free expression."""
-        n = body_entry(head)
-        for _ in range(8):
-            a = n.ast
-            if n.kind == "stmt" and isinstance(a, (ast.Assign, ast.AnnAssign)) and not self.cfg.calls_in(n) and len(n.succ) == 1 and \
-                    all(isinstance(t, ast.Name) for t in (a.targets if isinstance(a, ast.Assign) else [a.target])):
-                n = n.succ[0][0]
-                continue
-            break
-        return n
-
-    def deactivation(self) -> tuple[bool, Any]:
-        """Every rule's activation state is reset before any degree is computed: either deactivate() opens every iteration of
-        the main loop, or an earlier loop over *all* rules of the block deactivates each of them unconditionally."""
-        cfg, r = self.cfg, self.r
-        head, body = self.main_head, self.body
-        deact = method_calls_on(r, self.is_rule, "deactivate", body)
-        others = [n for n, _, _ in method_calls_on(r, self.is_rule, "activate_with", body) + method_calls_on(r, self.is_rule, "is_loaded", body)
-                  + method_calls_on(r, self.is_rule, "trigger", body)]
-        if deact and not self.filter:
-            ok = all(iter_precedes(cfg, head, [n for n, _, _ in deact], t) for t in others) and \
-                (deact[0][0] is self.first_effect(head) or iter_precedes(cfg, head, [n for n, _, _ in deact], self.first_effect(head)))
-            return ok, deact[0][0]
-        for h, base, _ in self.loops:
-            if h is head or base[0] == "filtered" or not cfg.dominates(h, head) or head in cfg.loop_body(h):
-                continue
-            b = cfg.loop_body(h)
-            d = method_calls_on(r, self.is_rule, "deactivate", b)
-            if d and not early_exits(cfg, h) and (d[0][0] is self.first_effect(h) or iter_precedes(cfg, h, [n for n, _, _ in d], self.first_effect(h))):
-                return True, d[0][0]
-        return False, (deact[0][0] if deact else head)
-
-    def construct(self, role: str) -> str:
-        return f"{self.cls}.activate/{role}"
-
-    # -- term classification -------------------------------------------------------------
-    def is_rule(self, t: Term) -> bool:
-        """An element of rule_block.rules (loop element or subscript)."""
-        if t[0] == "elem":
-            return is_path(self.unfiltered(iter_base(t[1])[0]), self.rules_path)
-        if t[0] == "sub":
-            return is_path(t[1], self.rules_path)
-        if t[0] == "phi":
-            return all(self.is_rule(a) for a in t[1])
-        return False
-
-    def is_degree(self, t: Term) -> bool:
-        t = strip(t)
-        if t[0] == "call" and t[1][0] == "attr" and t[1][2] == "activate_with" and self.is_rule(t[1][1]):
-            return True
-        if t[0] == "attr" and t[2] == "activation_degree" and self.is_rule(t[1]):
-            return True
-        return False
-
-    def classify(self, t: Term, e: ast.AST) -> str | None:
-        if self.is_degree(t):
-            return "d"
-        if t[0] == "call" and t[1][0] == "attr" and t[1][2] == "is_loaded" and self.is_rule(t[1][1]):
-            return "loaded"
-        p = path_of(t)
-        if p == "self.rules":
-            return "n"
-        if p == "self.threshold":
-            return "t"
-        if is_counter(t):
-            return "count"
-        c = const_value(t)
-        if isinstance(c, (int, float)) and not isinstance(c, bool) and t[0] in ("const", "call"):
-            return f"const:{float(c)}"
-        if t[0] == "call" and t[1][0] == "attr" and t[1][2] == "operator" and path_of(t[1][1]) == "self.comparator":
-            if len(t[2]) == 2 and self.is_degree(t[2][0]) and path_of(strip(t[2][1])) == "self.threshold":
-                return "op(d,t)"
-            return None
-        if self.heap_names and (t == ("list", ()) or t == ("call", ("global", "list"), (), ())):
-            return "heap"
-        return None
-
-    heap_names: set[str] = set()
-
-    # -- generic iteration interpretation ------------------------------------------------
-    def run_iteration(self, head: Node, targets: dict[str, list[Node]], roles: list[str], bools: list[str],
-                      spec: dict[str, Any], rule_id: str, what: str) -> None:
-        """Interpret one iteration of `head` under all orderings; compare visited targets with spec[name](env)."""
-        ev = RoleEval(self.r, self.classify)
-        body = self.cfg.loop_body(head)
-        outside = {n for n in self.cfg.nodes if n not in body}
-        start = body_entry(head)
-        roles = list(roles)
-        for n in body:
-            if n.kind == "test":
-                for rl in sorted(ev.roles_in(n.ast, n)):  # type: ignore[arg-type]
-                    if rl.startswith("const:") and rl not in roles:
-                        roles.append(rl)
-        fixed = {r: float(r.split(":")[1]) for r in roles if r.startswith("const:")}
-        rows = 0
-        bad: list[dict] = []
-        nondet: set[str] = set()
-        all_targets = {n for ns in targets.values() for n in ns}
-        import itertools
-
-        for bvals in itertools.product([True, False], repeat=len(bools)):
-            if self.filtered_loaded and "loaded" in bools and not bvals[bools.index("loaded")]:
-                continue  # the loop ranges over the loaded rules only
-            for order in weak_orders(roles, fixed) if roles else [{}]:
-                env: dict[str, Any] = dict(order)
-                env.update(dict(zip(bools, bvals)))
-                may, must = simulate(self.cfg, start, ev, env, all_targets, outside)
-                rows += 1
-                for name, nodes in targets.items():
-                    got = any(n in must for n in nodes)
-                    if got != any(n in may for n in nodes):
-                        nondet.add(name)
-                        continue
-                    want = bool(spec[name](env))
-                    if got != want and len(bad) < 5:
-                        bad.append({"target": name, "executed": got, "specified": want,
-                                    "ordering": describe_order(env, roles, bools)})
-        construct = self.construct(rule_id)
-        if nondet:
-            atoms = sorted(set(ev.unknown_atoms))[:5]
-            self.check.violation("G", construct, f"{what}: whether {sorted(nondet)} executes depends on something other "
-                                 f"than the specification's quantities: {atoms}", loc(self.fn, head),
-                                 {"unknown_atoms": atoms})
-            return
-        self.check.require(not bad, "G", construct,
-                           f"{what}: executed statements agree with the specified predicate on all {rows} orderings"
-                           if not bad else f"{what}: disagrees with the specification, e.g. {bad[0]}",
-                           loc(self.fn, head), {"rows": rows, "roles": roles + bools, "disagreements": bad},
-                           exhaustive=True, cases=rows)
 
 
 def describe_order(env: dict[str, Any], roles: list[str], bools: list[str]) -> str:
@@ -228,374 +45,25 @@ def describe_order(env: dict[str, Any], roles: list[str], bools: list[str]) -> s
 
 
 def run(check: Check) -> None:
-    p = check.program
     from . import wiring
+    from .activation_sem import activation_semantics
 
     wiring.p4_who_modifies(check, rule="U1")
+    # the seven activate methods are decided by interpretation on model rule blocks (sa/rules/activation_sem.py): the rules of earlier rounds that
+    # recognised the loop, the counter, the heap and its key, the pop loop, the collection list and the divisor (G, DIR, K1, O-all, O-seq and the
+    # structural forms of O-dea, O-vec and P2) are subsumed by it and were removed
     for cls in ACTIVATIONS:
-        a = Activate(check, cls)
-        common_rules(a)
-        if cls == "General":
-            general(a)
-        elif cls in ("First", "Last"):
-            first_last(a)
-        elif cls in ("Highest", "Lowest"):
-            highest_lowest(a)
-        elif cls == "Proportional":
-            proportional(a)
-        else:
-            threshold(a)
+        activation_semantics(check, cls)
     assert_is_not_vector(check)
     comparator_table(check)
     rule_trigger(check)
-    check.exhaustive_parts.append("trigger predicates: all weak orders of the compared quantities")
-
-
-# ------------------------------------------------------------------------------------- shared order rules
-def operator_wiring(a: Activate, roles: tuple[str, ...] = ("conjunction", "disjunction", "implication")) -> None:
-    """P2: the operators handed to activate_with / trigger originate from the block's own conjunction / disjunction /
-    implication, in that position (shared with C01 and C06: the connectives are computed with the block's operators
-    under every activation method, not only General)."""
-    check, r, fn = a.check, a.r, a.fn
-    awith = method_calls_on(r, a.is_rule, "activate_with", a.body)
-    if not awith:
-        raise AnalysisError(f"{a.cls}.activate: no activate_with call on a rule of the block")
-    for n, c, t in awith:
-        args = t[2]
-        if "conjunction" in roles:
-            check.require(len(args) == 2 and is_path(args[0], f"{a.rb}.conjunction"), "P2", a.construct("conjunction"),
-                          f"first operator passed to activate_with originates from {a.rb}.conjunction"
-                          f" (found {show(args[0]) if args else '<none>'})", loc(fn, n))
-        if "disjunction" in roles:
-            check.require(len(args) == 2 and is_path(args[1], f"{a.rb}.disjunction"), "P2", a.construct("disjunction"),
-                          f"second operator passed to activate_with originates from {a.rb}.disjunction"
-                          f" (found {show(args[1]) if len(args) > 1 else '<none>'})", loc(fn, n))
-    if "implication" not in roles:
-        return
-    # every trigger anywhere in the method gets the block's implication
-    trig = method_calls_on(r, lambda t: True, "trigger")
-    if not trig:
-        raise AnalysisError(f"{a.cls}.activate: no trigger call")
-    for n, c, t in trig:
-        args = t[2]
-        check.require(len(args) == 1 and is_path(args[0], f"{a.rb}.implication"), "P2", a.construct("implication"),
-                      f"operator passed to trigger originates from {a.rb}.implication"
-                      f" (found {show(args[0]) if args else '<none>'})", loc(fn, n))
+    check.exhaustive_parts.append("trigger sets: all weak orders of the degrees, zero and the threshold x loaded flags x rules parameter x comparators, on blocks of 2-4 rules")
 
 
 ACTIVATIONS = ["General", "First", "Last", "Highest", "Lowest", "Proportional", "Threshold"]
 
 
-def common_rules(a: Activate) -> None:
-    check, r, cfg, fn = a.check, a.r, a.cfg, a.fn
-    head, body = a.main_head, a.body
-    want_dir = "reverse" if a.cls == "Last" else "forward"
-    check.require(a.direction == want_dir, "DIR", a.construct("iteration"),
-                  f"rules are visited in {a.direction} insertion order (specified: {want_dir})", loc(fn, head))
-    # every rule of the block is visited: the loop ranges over the whole list (iter_base saw no slicing) and is never left early
-    ee = early_exits(cfg, head)
-    check.require(not ee, "O-all", a.construct("all-rules"),
-                  "the activation degree of every rule of the block is computed (the loop over the rules is never left early)" if not ee else
-                  f"the loop over the rules is left early at line {ee[0].lineno}: later rules keep stale activation degrees / are never considered", loc(fn, ee[0] if ee else head))
-    deact = method_calls_on(r, a.is_rule, "deactivate", body)
-    awith = method_calls_on(r, a.is_rule, "activate_with", body)
-    loaded = method_calls_on(r, a.is_rule, "is_loaded", body)
-    if not awith:
-        raise AnalysisError(f"{a.cls}.activate: no activate_with call on a rule of the block")
-    # O-dea: every rule is deactivated before any degree is computed
-    ok, where = a.deactivation()
-    check.require(ok, "O-dea", a.construct("deactivate"),
-                  "rule.deactivate() is the first effect on every rule (before is_loaded/activate_with/trigger)" if ok else
-                  "some rule of the block can reach is_loaded/activate_with/trigger (or be skipped) without having been deactivated first",
-                  loc(fn, where))
-    if a.filter is not None:
-        check.require(a.filtered_loaded, "O-all", a.construct("selection"),
-                      "the main loop ranges over the loaded rules of the block" if a.filtered_loaded else
-                      f"the main loop ranges only over the rules selected by `{a.filter}`", loc(fn, head))
-    operator_wiring(a)
-    # O-vec
-    if a.cls in VECTOR_INCAPABLE:
-        asserts = [(n, c, t) for n, c, t in method_calls_on(r, lambda t: t == ("param", "self"), "assert_is_not_vector", body)
-                   if len(t[2]) == 1 and a.is_degree(t[2][0])]
-        ev = RoleEval(r, a.classify)
-        sinks = [n for n in body if n.kind == "test" and "d" in ev.roles_in(n.ast, n)]  # type: ignore[arg-type]
-        sinks += [n for n, c in cfg.find_calls("heappush") if n in body]
-        sinks += [n for n in body if n.kind == "stmt" and isinstance(n.ast, ast.AugAssign) and
-                  any(a.is_degree(r.term(n.ast.value, n)) for _ in [0])]
-        ok = bool(asserts) and all(iter_precedes(cfg, head, [n for n, _, _ in asserts], s) for s in sinks)
-        check.require(ok, "O-vec", a.construct("assert_is_not_vector"),
-                      f"assert_is_not_vector(degree) precedes all {len(sinks)} scalar-only uses of the degree "
-                      "(comparisons, heap keys, accumulation)", loc(fn, asserts[0][0] if asserts else head),
-                      {"sinks": [s.lineno for s in sinks]})
-
-
-# ------------------------------------------------------------------------------------- General
-def general(a: Activate) -> None:
-    r = a.r
-    trig = [n for n, _, _ in method_calls_on(r, a.is_rule, "trigger", a.body)]
-    aw = [n for n, _, _ in method_calls_on(r, a.is_rule, "activate_with", a.body)]
-    a.run_iteration(a.main_head, {"activate_with": aw, "trigger": trig}, [], ["loaded"],
-                    {"activate_with": lambda e: e["loaded"], "trigger": lambda e: e["loaded"]},
-                    "trigger", "General triggers every loaded rule")
-    for t in trig:
-        a.check.require(all(iter_precedes(a.cfg, a.main_head, aw, t) for _ in [0]), "O-seq", a.construct("trigger"),
-                        "activate_with precedes trigger in the iteration", loc(a.fn, t))
-
-
-# ------------------------------------------------------------------------------------- First / Last
-def first_last(a: Activate) -> None:
-    r, cfg = a.r, a.cfg
-    trig = [n for n, _, _ in method_calls_on(r, a.is_rule, "trigger", a.body)]
-    aw = [n for n, _, _ in method_calls_on(r, a.is_rule, "activate_with", a.body)]
-    incs = [n for n in a.body if n.kind == "stmt" and isinstance(n.ast, (ast.AugAssign, ast.Assign)) and
-            any(is_counter(r.name_term(d.name, body_entry(a.main_head))) for d in cfg.defs_at(n))]
-    roles = ["count", "n", "d", "const:0.0", "t"]
-    pred = lambda e: e["loaded"] and e["count"] < e["n"] and e["d"] > e["const:0.0"] and e["d"] >= e["t"]  # noqa: E731
-    targets = {"activate_with": aw, "trigger": trig}
-    if incs:  # without a counter the truth table below disagrees on the `count` rows
-        targets["count+=1"] = incs
-    a.run_iteration(a.main_head, targets, roles, ["loaded"],
-                    {"activate_with": lambda e: e["loaded"], "trigger": pred, "count+=1": pred},
-                    "trigger", f"{a.cls}(n, t) triggers iff loaded and count < n and d > 0 and d >= t, counting each trigger")
-    for t in trig:
-        a.check.require(iter_precedes(cfg, a.main_head, aw, t), "O-seq", a.construct("trigger"),
-                        "activate_with precedes trigger in the iteration", loc(a.fn, t))
-
-
-# ------------------------------------------------------------------------------------- Highest / Lowest
-def _key_shape(a: "Activate", key: Term) -> tuple[str, str] | None:
-    """('+d'|'-d', '+i'|'-i') for a 2-tuple key over (degree, insertion index); None if it is something else."""
-    if key[0] != "tuple" or len(key[1]) != 2:
-        return None
-    k0, k1 = key[1]
-    if a.is_degree(k0):
-        d = "+d"
-    elif k0[0] == "unop" and k0[1] == "-" and a.is_degree(k0[2]):
-        d = "-d"
-    else:
-        return None
-
-    def is_index(t: Term) -> bool:
-        return t[0] == "index" and is_path(iter_base(t[1])[0], a.rules_path)
-
-    if is_index(k1):
-        i = "+i"
-    elif k1[0] == "unop" and k1[1] == "-" and is_index(k1[2]):
-        i = "-i"
-    else:
-        return None
-    return d, i
-
-
-def bounded_heap(a: "Activate") -> bool:
-    """Selection kept in a heap of at most n entries (push while not full, otherwise replace the worst retained entry).
-
-    In such an eviction heap the top must be the *worst* retained candidate, i.e. the minimum of the key. "Better" for
-    Highest means larger degree, then smaller index; so the key must be (degree, -index) [Highest] / (-degree, -index) [Lowest].
-    Returns True when the idiom was recognised (and judged)."""
-    r, cfg, check, fn = a.r, a.cfg, a.check, a.fn
-    repl = [(n, c) for n, c in cfg.find_calls("heapreplace") + cfg.find_calls("heappushpop") if n in a.body]
-    pushes = [(n, c) for n, c in cfg.find_calls("heappush") if n in a.body]
-    if not repl:
-        return False
-    want = ("+d", "-i") if a.cls == "Highest" else ("-d", "-i")
-    keys = [(n, r.term(c.args[1], n)) for n, c in pushes + repl if len(c.args) == 2]
-    shapes = [(n, _key_shape(a, k), k) for n, k in keys]
-    bad = [(n, sh, k) for n, sh, k in shapes if sh != want]
-    what = {"Highest": "(degree, -index)", "Lowest": "(-degree, -index)"}[a.cls]
-    check.require(not bad and bool(shapes), "K1", a.construct("heap-key"),
-                  f"bounded heap keeps the best n: its key is {what}, so the entry evicted first is the worst one (smallest degree, latest on ties)"
-                  if not bad else f"bounded heap with key {show(bad[0][2])}: the entry at the top (evicted first) must be the worst retained one, which needs the key "
-                  f"{what}; with this key ties are evicted in the wrong order (the earliest of equal degrees is dropped)",
-                  loc(fn, (bad or shapes)[0][0]))
-    # push iff the heap is not full; replace only when the candidate is strictly better than the top
-    if isinstance(pushes[0][1].args[0], ast.Name) if pushes else False:
-        a.heap_names = {pushes[0][1].args[0].id}
-    for n, c in repl:
-        gs = [(r.term(g, gn), pol) for g, pol, gn in cfg.must_guards(n) if gn in a.body]
-        strict = False
-        for gt, pol in gs:
-            for s_ in walk(gt):
-                if s_[0] == "cmp" and len(s_[1]) == 1 and pol:
-                    l, op, rr = s_[2][0], s_[1][0], s_[2][1]
-                    top = lambda z: z[0] == "sub" and const_value(z[2]) == 0 and z[1][0] == "sub" and const_value(z[1][2]) == 0  # noqa: E731
-                    cand = a.is_degree(l) or (l[0] == "unop" and a.is_degree(l[2]))
-                    if cand and top(rr) and op == ">":
-                        strict = True
-                    if cand and top(rr) and op == ">=":
-                        strict = False
-        check.require(strict, "G", a.construct("evict"), "a candidate replaces the worst retained entry only when it is strictly better (equal degrees keep the earlier rule)"
-                      if strict else "the eviction test is not a strict comparison of the candidate with the heap top", loc(fn, n))
-    check.notes.append(f"{a.cls}.activate uses a bounded eviction heap; selection size and trigger loop are not modelled beyond the key and eviction rules")
-    return True
-
-
-def highest_lowest(a: Activate) -> None:
-    r, cfg, check, fn = a.r, a.cfg, a.check, a.fn
-    if bounded_heap(a):
-        return
-    pushes = [(n, c) for n, c in cfg.find_calls("heappush") if n in a.body]
-    pops = cfg.find_calls("heappop")
-    if len(pushes) != 1 or len(pops) != 1:
-        raise AnalysisError(f"{a.cls}.activate: expected one heappush in the rule loop and one heappop "
-                            f"(found {len(pushes)}, {len(pops)})")
-    pn, pc = pushes[0]
-    if not (isinstance(pc.args[0], ast.Name)):
-        raise AnalysisError(f"{a.cls}.activate: heap is not a local variable")
-    heap = pc.args[0].id
-    a.heap_names = {heap}
-    aw = [n for n, _, _ in method_calls_on(r, a.is_rule, "activate_with", a.body)]
-    a.run_iteration(a.main_head, {"activate_with": aw, "push": [pn]}, ["d", "const:0.0"], ["loaded"],
-                    {"activate_with": lambda e: e["loaded"], "push": lambda e: e["loaded"] and e["d"] > e["const:0.0"]},
-                    "push", f"{a.cls} collects a rule iff loaded and d > 0")
-    # K1 heap key
-    key = r.term(pc.args[1], pn)
-    want_neg = a.cls == "Highest"
-    ok = key[0] == "tuple" and len(key[1]) == 2
-    first_ok = second_ok = False
-    if ok:
-        k0, k1 = key[1]
-        if want_neg:
-            first_ok = k0[0] == "unop" and k0[1] == "-" and a.is_degree(k0[2])
-        else:
-            first_ok = a.is_degree(k0)
-        second_ok = k1[0] == "index" and is_path(iter_base(k1[1])[0], a.rules_path)
-    check.require(ok and first_ok and second_ok, "K1", a.construct("heap-key"),
-                  f"heap key is ({'-' if want_neg else ''}degree, insertion index) (found {show(key)})", loc(fn, pn))
-    # pop loop
-    popn, popc = pops[0]
-    heads = [h for h in cfg.loop_heads() if popn in cfg.loop_body(h) and h.kind == "test"]
-    if not heads or not (isinstance(popc.args[0], ast.Name) and popc.args[0].id == heap):
-        raise AnalysisError(f"{a.cls}.activate: heappop is not inside a while loop over the same heap")
-    wh = heads[-1]
-    wbody = cfg.loop_body(wh)
-    trig = method_calls_on(r, a.is_rule, "trigger", wbody)
-    incs = [n for n in wbody if n.kind == "stmt" and any(is_counter(r.name_term(d.name, wh)) for d in cfg.defs_at(n))]
-    if not trig or not incs:
-        raise AnalysisError(f"{a.cls}.activate: pop loop without trigger or counter")
-    # while-test truth table: body executes iff heap non-empty and count < n
-    ev = RoleEval(r, a.classify)
-    rows = 0
-    bad = []
-    for hv in (True, False):
-        for order in weak_orders(["count", "n"]):
-            env = dict(order)
-            env["heap"] = hv
-            v = ev.value(wh.ast, wh, env)  # type: ignore[arg-type]
-            rows += 1
-            want = hv and env["count"] < env["n"]
-            if v is not want:
-                bad.append(describe_order(env, ["count", "n"], ["heap"]))
-    check.require(not bad and not ev.unknown_atoms, "G", a.construct("pop-loop"),
-                  "pop loop continues iff the heap is non-empty and count < n" if not bad and not ev.unknown_atoms
-                  else f"pop loop guard disagrees with the specification at {bad[:3]} {ev.unknown_atoms[:3]}",
-                  loc(fn, wh), {"rows": rows, "test": unparse(wh.ast)}, exhaustive=True, cases=rows)
-    # inside the pop loop: unconditional trigger of rules[popped index] and count += 1
-    for n, c, t in trig:
-        recv = t[1][1]
-        idx = recv[2] if recv[0] == "sub" else ("const", None)
-        idx_ok = (idx[0] == "sub" and idx[2] == ("const", 1) and idx[1][0] == "call" and idx[1][1] == ("global", "heapq.heappop")) or \
-            (idx[0] == "unpack" and idx[2] == (1,) and idx[1][0] == "call" and idx[1][1] == ("global", "heapq.heappop"))
-        check.require(idx_ok, "K1", a.construct("popped-index"),
-                      f"the triggered rule is rules[index] with index the second component of the popped key "
-                      f"(found {show(recv)})", loc(fn, n))
-        uncond = not [g for g in cfg.must_guards(n) if g[2] in wbody]
-        inc_uncond = all(not [g for g in cfg.must_guards(i) if g[2] in wbody] for i in incs)
-        check.require(uncond and inc_uncond, "O-seq", a.construct("trigger"),
-                      "every popped rule is triggered and counted unconditionally", loc(fn, n))
-
-
-# ------------------------------------------------------------------------------------- Proportional
-def proportional(a: Activate) -> None:
-    r, cfg, check, fn = a.r, a.cfg, a.check, a.fn
-    aw = [n for n, _, _ in method_calls_on(r, a.is_rule, "activate_with", a.body)]
-    appends = [(n, c) for n, c in cfg.find_calls(".append") if n in a.body and isinstance(c.func, ast.Attribute)
-               and isinstance(c.func.value, ast.Name) and len(c.args) == 1 and a.is_rule(r.term(c.args[0], n))]
-    if len(appends) != 1:
-        raise AnalysisError("Proportional.activate: expected one collection site `list.append(rule)` in the rule loop")
-    an, ac = appends[0]
-    collected = ac.func.value.id  # type: ignore[union-attr]
-    sums = [n for n in a.body if n.kind == "stmt" and isinstance(n.ast, ast.AugAssign) and isinstance(n.ast.op, ast.Add)
-            and isinstance(n.ast.target, ast.Name) and a.is_degree(r.term(n.ast.value, n))]
-    sums += [n for n in a.body if n.kind == "stmt" and isinstance(n.ast, ast.Assign) and len(n.ast.targets) == 1 and
-             isinstance(n.ast.targets[0], ast.Name) and (lambda t: t[0] == "binop" and t[1] == "+" and
-             (a.is_degree(t[2]) or a.is_degree(t[3])))(r.term(n.ast.value, n))]
-    if len(sums) != 1:
-        raise AnalysisError("Proportional.activate: expected one accumulation of the degree in the rule loop")
-    sn = sums[0]
-    sum_name = sn.ast.target.id if isinstance(sn.ast, ast.AugAssign) else sn.ast.targets[0].id  # type: ignore[union-attr]
-    pos = lambda e: e["loaded"] and e["d"] > e["const:0.0"]  # noqa: E731
-    a.run_iteration(a.main_head, {"activate_with": aw, "collect": [an], "sum+=d": [sn]}, ["d", "const:0.0"], ["loaded"],
-                    {"activate_with": lambda e: e["loaded"], "collect": pos, "sum+=d": pos},
-                    "collect", "Proportional collects and sums a rule iff loaded and d > 0")
-    # initial value of the sum is zero
-    init = [d for d in cfg.defs_reaching(sum_name, [p for p, _ in a.main_head.pred if p.kind == "iter"][0])]
-    init_ok = len(init) == 1 and init[0].value is not None and const_value(r.term(init[0].value, init[0].node)) == 0
-    check.require(init_ok, "G", a.construct("sum-seed"), "the sum of degrees starts at 0", loc(fn, init[0].node if init else sn))
-    # second loop over the collected rules (for-each or index loop)
-    second = []
-    for h_ in cfg.loop_heads():
-        if h_.kind != "for" or h_ is a.main_head:
-            continue
-        itn = [q for q, _ in h_.pred if q.kind == "iter"]
-        if not itn:
-            continue
-        names = {x.id for x in ast.walk(h_.ast.iter) if isinstance(x, ast.Name)}  # type: ignore[union-attr]
-        base_, dir_ = iter_base(r.term(h_.ast.iter, itn[0]))  # type: ignore[union-attr]
-        if collected in names and base_ == r.name_term(collected, itn[0]):
-            second.append(h_)
-    if len(second) != 1:
-        raise AnalysisError("Proportional.activate: no loop over the collected rules")
-    h2 = second[0]
-    if not cfg.dominates(a.main_head, h2) or h2 in a.body:
-        raise AnalysisError("Proportional.activate: normalisation loop is not after the collection loop")
-    b2 = cfg.loop_body(h2)
-    elem2 = ("elem", iter_base(r.term(h2.ast.iter, [p for p, _ in h2.pred if p.kind == "iter"][0]))[0])  # type: ignore[union-attr]
-    divs = []
-    for n in b2:
-        if n.kind != "stmt":
-            continue
-        s = n.ast
-        if isinstance(s, ast.AugAssign) and isinstance(s.op, ast.Div) and isinstance(s.target, ast.Attribute) \
-                and s.target.attr == "activation_degree" and r.term(s.target.value, n) == elem2:
-            divs.append((n, r.term(s.value, n)))
-        elif isinstance(s, ast.Assign) and len(s.targets) == 1 and isinstance(s.targets[0], ast.Attribute) and \
-                s.targets[0].attr == "activation_degree" and r.term(s.targets[0].value, n) == elem2:
-            t = r.term(s.value, n)
-            if t[0] == "binop" and t[1] == "/" and t[2] == ("attr", elem2, "activation_degree"):
-                divs.append((n, t[3]))
-            else:
-                divs.append((n, ("const", "<not a division of the rule's own degree>")))
-    trig2 = [(n, c, t) for n, c, t in method_calls_on(r, lambda t: t == elem2, "trigger", b2)]
-    if not trig2:
-        raise AnalysisError("Proportional.activate: collected rules are never triggered")
-    sum_term = r.name_term(sum_name, h2)
-    div_ok = len(divs) == 1 and divs[0][1] == sum_term
-    check.require(div_ok, "G", a.construct("normalise"),
-                  "each collected rule's degree is divided once by the sum of exactly the collected degrees"
-                  if div_ok else f"divisor is {show(divs[0][1]) if divs else '<missing>'}, expected the sum {show(sum_term)}",
-                  loc(fn, divs[0][0] if divs else h2))
-    for n, c, t in trig2:
-        uncond = not [g for g in cfg.must_guards(n) if g[2] in b2]
-        ordered = bool(divs) and iter_precedes(cfg, h2, [d[0] for d in divs], n)
-        check.require(uncond and ordered, "O-seq", a.construct("trigger"),
-                      "every collected rule is triggered, after its degree has been normalised", loc(fn, n))
-
-
-# ------------------------------------------------------------------------------------- Threshold
-def threshold(a: Activate) -> None:
-    r = a.r
-    trig = [n for n, _, _ in method_calls_on(r, a.is_rule, "trigger", a.body)]
-    aw = [n for n, _, _ in method_calls_on(r, a.is_rule, "activate_with", a.body)]
-    a.run_iteration(a.main_head, {"activate_with": aw, "trigger": trig}, [], ["loaded", "op(d,t)"],
-                    {"activate_with": lambda e: e["loaded"], "trigger": lambda e: e["loaded"] and e["op(d,t)"]},
-                    "trigger", "Threshold triggers iff loaded and comparator.operator(degree, threshold)")
-    for t in trig:
-        a.check.require(iter_precedes(a.cfg, a.main_head, aw, t), "O-seq", a.construct("trigger"),
-                        "activate_with precedes trigger in the iteration", loc(a.fn, t))
-
-
-# ------------------------------------------------------------------------------------- helpers outside activate
+# ------------------------------------------------------------------------------------- supporting functions
 def assert_is_not_vector(check: Check) -> None:
     p = check.program
     fn = p.func("Activation.assert_is_not_vector")
